@@ -204,7 +204,7 @@ CYCLE = {
     }
 """},
    {"at": r"^\s*continue;", "pos": "before", "text": "            proof { gd = discovered@; }"},
-   {"at": r"^\s*visited\.insert\(node\);", "pos": "after", "text": r"""        let ghost order0 = order;
+   {"at": r"^\s*visited\.insert\(node\);", "pos": "after", "indent": 8, "text": r"""        let ghost order0 = order;
         let ghost m0 = cycle_owned_refs@;
         let ghost d0 = discovered@;
         let ghost tb = heap.table(node.ptr);
